@@ -108,7 +108,7 @@ func (p *propC05) Assumptions() []string {
 	}
 }
 func (p *propC05) ProbeNames() []string {
-	return []string{"union definition wider than every single message", "array padded", "out-of-domain value encoded", "stale Header.CRC overwritten", "Encode failed on out-of-domain File", "header with CRC", "big endian"}
+	return []string{"union definition wider than every single message", "array padded", "out-of-domain value encoded", "stale Header.CRC overwritten", "Encode failed on out-of-domain File", "header with CRC", "big endian", "preceded by a failed Encode"}
 }
 
 func (p *propC05) Prepare(seed uint64, tier string) int {
@@ -128,8 +128,27 @@ func (p *propC05) Gen(idx int) *Scenario {
 	if (idx/len(supportedFileTypes))%2 == 1 {
 		arch = "be"
 	}
-	return &Scenario{V: 1, Property: "C05", Engine: "pipe", Seed: p.seed, Index: idx,
+	sc := &Scenario{V: 1, Property: "C05", Engine: "pipe", Seed: p.seed, Index: idx,
 		Tasks: []Task{{ID: 0, Call: "Encode", File: mf, Arch: arch}}}
+	if r.Chance(1, 8) {
+		// a failing Encode first (sink that fails at its n-th Write, or a File with a
+		// string that is not UTF-8): whatever it leaves behind must not reach the
+		// next call's output
+		pre := Task{ID: 1, Call: "Encode", Arch: arch}
+		if r.Bool() {
+			pre.File = genModelFile(r, MFOpts{InDomain: true, FT: ft, MaxMsgs: 4, MaxFields: 6})
+			pre.WriteFail = r.Range(1, 3)
+		} else {
+			bad := genModelFile(r, MFOpts{InDomain: true, FT: 4, MaxMsgs: 3, MaxFields: 5})
+			if pf := fieldByName(12, "Name"); pf != nil {
+				bad.Msgs = append(bad.Msgs, MMsg{Global: 12, Fields: map[int]string{pf.SIndex: `s"caf\xe9 \xff"`}})
+			}
+			pre.File = bad
+		}
+		sc.Tasks = append(sc.Tasks, pre)
+		sc.Family = "after-failed-encode"
+	}
+	return sc
 }
 
 // fileOutOfDomain reports whether any set field of the model File is out of domain.
@@ -165,6 +184,15 @@ func (p *propC05) Check(sc *Scenario, st *Stats) []Violation {
 	mf := t.File
 	if !isSupportedFileType(mf.Type) {
 		return nil
+	}
+	if len(sc.Tasks) > 1 && sc.Tasks[1].Call == "Encode" && sc.Tasks[1].File != nil {
+		pre := runTask(&sc.Tasks[1], nil, nil, nil)
+		st.Observe(pre)
+		if pre.Panic != "" {
+			bad("panic", "Encode panicked: %s", pre.Panic)
+			return vs
+		}
+		st.ProbeIf(pre.ErrClass != "nil", "preceded by a failed Encode")
 	}
 	r := runTask(t, nil, nil, nil)
 	st.Observe(r)
